@@ -81,6 +81,17 @@ CHECKS = {
              "slot attribute.",
         technique="CrossHair symbolic execution (z3) of real relation queries over an executable SQL model",
         ref='4 C11'),
+    'C12': dict(
+        text="Bounded symbolic model checking of the real expand logic: for a lexicon L and expand "
+             "lexicons E, E2 (and optionally a newer E:2) with symbolic ILI assignment, relation targets, "
+             "expand mode (default from dependencies, '', explicit single/several, '*', unrestricted) and "
+             "dependency declaration, the relations of every synset of L equal own relations followed by "
+             "the ILI-mapped relations of the expand synsets (placeholders for missing concepts, ILI-less "
+             "targets dropped, source/target/lexicon of the expand lexicon kept); expanded_lexicons() and "
+             "the missing-dependency warning are checked too.",
+        note=NOTE_COMMON + DB_NOTE + "Synset relations only; L has 3 synsets, E 4, E2 2.",
+        technique="CrossHair symbolic execution (z3) of the real expand logic over an executable SQL model",
+        ref='4 C12'),
     'C13': dict(
         text="Bounded symbolic model checking of the real wn.taxonomy functions and Synset.relation_paths: "
              "adjacency bits of the hypernym graph are symbolic, so every DAG on 4 (thorough: 5) nodes in "
